@@ -6,7 +6,6 @@ import os, re, sys
 sys.path.insert(0, os.path.join(os.path.dirname(os.path.abspath(__file__)), "..", "lib"))
 import vf
 
-KNOWN_KEY = "exec_error_pipe_clobbered"
 TERM_SIGS = [1, 2, 9, 10, 12, 13, 14, 15]        # default action: terminate, no core
 CORE_SIGS = [3, 6, 8, 11]                        # terminate (+core, disabled by RLIMIT_CORE 0)
 
@@ -152,8 +151,11 @@ def gen_exits(rng, maxn):
 
 
 CORPUS = [
-    # error pipe lands on 4 < stdio_count 6 and slot 4 is mapped: exec failure reported as success
+    # regression (fixed by /repo a79de05): the error pipe lands on 4 < stdio_count 6 and slot 4 is
+    # mapped; before the fix the exec failure was reported as success
     "L15 r S0:h0,h1,h2,h0,h1,h2:x0:-:RE D",
+    # same, the error pipe was overwritten by the child's end of a UV_CREATE_PIPE pair
+    "L15 f60=8c r S0:i,h60,h60,h60,i,i,h60,p,h60,i,h60:x241:-:RE D",
     # same layout, slot 4 ignored: the error arrives
     "L15 r S0:h0,h1,h2,h0,i,h2:x0:-:RE D",
     # stdio_count 4: error pipe at 4 >= stdio_count
@@ -481,14 +483,17 @@ def monitor_impl(im):
         count = max(len(stdio), 3)
         inject = bool(re.search(r"[pf]|s\d", fl))
         bad_src = [s for s in stdio if s == "b" or (s[0] == "h" and int(s[1:]) not in P)]
-        must_fail = "E" in fl or inject or bool(bad_src)
+        closed_src = [x for x in bad_src if x != "b"]
+        # a closed source descriptor is outside the property (whatever the spawn itself opens on
+        # that number gets inherited): only consistency is demanded, by the outcome
+        must_fail = "E" in fl or inject or "b" in stdio or (bool(closed_src) and sp["ret"] != 0)
         npipes = sum(1 for s in stdio if s == "p")
         if must_fail:
             if sp["ret"] == 0 or sp["active"]:
                 return ("uv_spawn of child %d returned %d (active=%d) although %s" %
                         (h, sp["ret"], sp["active"],
                          "the program does not exist" if "E" in fl else "a step of the spawn failed"),
-                        ("E" in fl or any(x != "b" for x in bad_src)) and not inject and "b" not in stdio)
+                        "E" in fl and not inject and "b" not in stdio)
             if h in nx:
                 return "exit_cb ran for child %d whose spawn failed" % h, False
             if h in (im.z or []):
@@ -514,6 +519,8 @@ def monitor_impl(im):
                 for i in range(count):
                     s = stdio[i] if i < len(stdio) else "i"
                     got = c.get(i)
+                    if s in closed_src:
+                        continue
                     if s[0] == "h":
                         want = P[int(s[1:])][0]
                         if got is None or got[0] != want or got[1] != 0:
@@ -624,21 +631,13 @@ def main():
     by_case = {}
     for c, im, x, y in zip(cases, impls, ca, cb):
         by_case[c] = (im, x == y)
-    known = chk.match_known(KNOWN_KEY)
-    stats = {"exec_failure_reported_as_success": 0, "children": 0, "exit_callbacks": 0, "reports": 0,
-             "failed_spawns": 0}
+    stats = {"children": 0, "exit_callbacks": 0, "reports": 0, "failed_spawns": 0}
 
     def monitor(case, impl_canon):
         im, agree = by_case[case]
         reason, symptom = monitor_impl(im)
-        if reason and symptom and agree:
-            # the faithful model predicts exactly this trace: the defect of
-            # C12_error_pipe_clobbered_refuted, nothing else
-            stats["exec_failure_reported_as_success"] += 1
-            if known:
-                chk.known_hit(known)
-                return None
-            return reason + " [error pipe below stdio_count overwritten by the descriptor shuffle; replay: " + case + "]"
+        if reason and symptom:
+            reason += " [what an overwritten exec-error pipe looks like, cf. /repo a79de05]"
         return reason
     vf.diff_cases(chk, "process.c uv_spawn/uv__process_child_init/uv__wait_children = Model/Process.v",
                   cases, ca, cb, monitor)
